@@ -340,8 +340,12 @@ def run(ctx):
                 phi[int(rng.integers(0, len(phi)))] = np.nan
             elif k == 1:
                 c["mean"] = float("nan")
+                if it % 2:
+                    c["ini"] = float(rng.normal())     # explicit finite initial value
             else:
                 c["ini"] = float("nan")
+                if it % 2:
+                    c["mean"] = float(rng.normal())
             run_reject(ctx, c)
 
 
